@@ -85,8 +85,14 @@ func (cm *MemClientMgr) Add(cc *ClientConn) {
 	cm.mu.Lock()
 	defer cm.mu.Unlock()
 
-	cm.nextClientID.Add(1)
-	binary.BigEndian.PutUint16(cc.ID[:], uint16(cm.nextClientID.Load()))
+	// Skip IDs still held by a connected client (the 16 bit counter wraps after 65,536 connections).
+	for i := 0; i < 1<<16; i++ {
+		cm.nextClientID.Add(1)
+		binary.BigEndian.PutUint16(cc.ID[:], uint16(cm.nextClientID.Load()))
+		if _, inUse := cm.clients[cc.ID]; !inUse {
+			break
+		}
+	}
 
 	cm.clients[cc.ID] = cc
 }
